@@ -228,7 +228,7 @@ def mutate_stream(rng, b):
         elif k == 2: b[i:i] = rng.bytes(rng.range(1, 4))
         elif k == 3: del b[i:i + rng.range(1, 4)]
         elif k == 4: b[i] = rng.choice([0x00, 0x40, 0x80, 0xc0, 0xff, 0x3f, 0x01, 0x41, 0xc1, 0x03, 0x43, 0x83, 0xc3])
-        elif k == 5: b[i:i + 3] = b"\\xff\\xff\\xff"
+        elif k == 5: b[i:i + 3] = bytes([255, 255, 255])
         elif k == 6: b[i:i + 1] = bytes([0x40 | (b[i] & 0x3f)])
         else: b[i:i + 1] = bytes([(b[i] & 0xc0) | rng.range(2, 8)])
         if not b:
